@@ -85,7 +85,7 @@ var clauseKeywords = map[string]bool{
 	"modifies": true, "invariant": true, "nopanic": true, "trusted": true, "pure": true,
 	"specfn": true, "let": true, "assume": true, "typeinv": true, "protect": true,
 	"monotone": true, "results": true, "assert": true, "package": true, "sweep": true,
-	"axiom": true, "ghostfield": true, "ghostarray": true, "lemma": true, "impls": true, "bodyensures": true, "snap": true, "apply": true, "ghost": true, "frame": true, "end": true,
+	"axiom": true, "ghostfield": true, "ghostarray": true, "reads_not": true, "readafter": true, "lemma": true, "impls": true, "bodyensures": true, "snap": true, "apply": true, "ghost": true, "frame": true, "end": true,
 }
 
 var labelRe = regexp.MustCompile(`^([A-Za-z_][A-Za-z0-9_\-]*):\s+(.*)$`)
@@ -167,7 +167,7 @@ func parseContractFile(path string, pkgPath string, assumed bool, cs *Contracts)
 				return fmt.Errorf("%s: duplicate specfn %s", rc.pos, sf.Name)
 			}
 			cs.SpecFns[sf.Name] = sf
-		case "typeinv", "protect", "monotone", "axiom", "ghostfield", "ghostarray", "frame", "lemma":
+		case "typeinv", "protect", "monotone", "axiom", "ghostfield", "ghostarray", "frame", "lemma", "reads_not", "readafter":
 			cs.Decls = append(cs.Decls, PkgDecl{Kind: rc.kw, Pkg: curPkg, Text: text, Pos: rc.pos, Props: props})
 		default:
 			if cur == nil {
